@@ -210,6 +210,9 @@ CallOutput(o, v, res, f) ==
 Control(k) ==
     /\ ctl.phase = "op" /\ ctl.steps < MaxSteps
     /\ k = "mutate" => (~InRecMode(rec) \/ rec.cls.copyOn)
+    \* a recorded program only reads back (play_data) what it recorded (record_data) before: reading a key it never
+    \* records is a defect of the program, not of the framework
+    /\ k = "playdata" => (~InRecMode(rec) \/ <<"user", "k1", 0>> \in DOMAIN rec.data)
     /\ LET S0 == [r |-> rec, c |-> cas, calls |-> <<>>]
            S1 == CASE k = "discard" -> Disc(S0)
                    [] k = "force"   -> Forc(S0)
